@@ -135,5 +135,39 @@ def prop_lao(case, ctx):
     ctx.nontrivial(len(seen) >= 3 and stochastic and inexact and n_expanded >= 2)
 
 
-PROPS = [Prop("lao", lambda tier: cases(tier), prop_lao, quick=4000, thorough=80000,
+@st.composite
+def reuse_cases(draw, tier="quick"):
+    kw = dict(min_states=2, max_states=5, allow_explicit=False, schemes=("int",))
+    a = draw(st.one_of(mdp_specs("discounted", **kw), mdp_specs("ssp", absorbing_kinds=("n", "n", "n", "n", "abs"), **kw)))
+    b = draw(st.one_of(mdp_specs("discounted", **kw), mdp_specs("ssp", absorbing_kinds=("n", "n", "n", "n", "abs"), **kw)))
+    return {"a": a, "b": b, "slack": draw(st.sampled_from([0, 0.5, 2])), "seed": draw(st.integers(0, 10 ** 6))}
+
+
+def shared_heuristic(case):
+    """admissible for both problems: pointwise maximum of (V* + slack) over the two, keyed by state label"""
+    table = {}
+    built = []
+    for spec in (case["a"], case["b"]):
+        mdp, view = build_mdp(spec)
+        v = RefMDP(spec).optimal()["V"]
+        for i in range(spec["n"]):
+            table[view.S[i]] = max(table.get(view.S[i], -float("inf")), float(v[i]) + case["slack"])
+        built.append(mdp)
+    return table, built
+
+
+def prop_reuse(case, ctx):
+    from msdm.algorithms.laostar import LAOStar
+    from vpm.checks.reuse import check_reuse, policy_table
+    table, (ma, mb) = shared_heuristic(case)
+    make = lambda: LAOStar(heuristic=lambda s: table[s], seed=case["seed"])
+    check_reuse(ctx, "C03.reuse", make, lambda pl, m: pl.plan_on(m),
+                lambda r, m: {"V": r.state_value_map, "iv": r.initial_value, "conv": bool(r.converged),
+                              "pi": policy_table(r.policy, list(r.state_value_map.keys()))}, ma, mb)
+    ctx.nontrivial(case["a"] != case["b"])
+
+
+PROPS = [Prop("reuse", lambda tier: reuse_cases(tier), prop_reuse, quick=300, thorough=18000,
+              doc="an LAOStar object reused on a second MDP gives the same result as a fresh one"),
+         Prop("lao", lambda tier: cases(tier), prop_lao, quick=4000, thorough=240000,
               doc="LAO* convergence, optimal initial value, upper-bound invariant, closed optimal policy")]
